@@ -21,6 +21,8 @@ def interp_category(t):
         return 'EMPTY'
     if t.startswith('*clef'):
         return 'CLEF'
+    if t.startswith('*xywh'):
+        return 'BOUNDING_BOXES'
     if t.startswith('*k[') or t == '*kcancel':
         return 'KEY_SIGNATURE'
     if t.startswith('*met(') or t.startswith('*M('):
